@@ -522,7 +522,14 @@ class TifaCore:
         else:
             if not is_subtype(left.type, right.type):
                 self._issue(type_changes(self.locate(), left.name, left.type, right.type))
-            state.read = self.match_rso(left.read, right.read)
+            if left.set == 'no' and right.set != 'no':
+                # On the left path the name was only read, without ever having
+                # been assigned: that is no use of the right path's assignment
+                state.read = right.read
+            elif right.set == 'no' and left.set != 'no':
+                state.read = left.read
+            else:
+                state.read = self.match_rso(left.read, right.read)
             state.set = self.match_rso(left.set, right.set)
             state.over = self.match_rso(left.over, right.over)
             if left.over == 'no':
